@@ -4,7 +4,7 @@ from world import amounts, specials
 ID = "C13"
 LEAN_MODULES = ["QtyModel.Props.C13", "QtyModel.Props.Backends", "QtyModel.Props.TieDiv", "QtyModel.Props.TieNoRefDiv", "QtyModel.Props.TieKinds", "QtyModel.Props.TieRate"]
 HARNESS_GROUPS = ('g_rate',)
-RATE_TYPES = ["Length", "Duration", "Mass", "DataVolume", "Temperature", "AmountT", "S:Su", "S:Sn", "S:Sa"]
+RATE_TYPES = ["Length", "Duration", "Mass", "DataVolume", "Temperature", "AmountT", "S:Su", "S:Sn", "S:Sa", "S:Se"]
 RULE = ("ordered pairs of quantity types from a representative set (with reference unit, dimensionless, single-unit, "
         "without reference unit) x term/per/operand units x amount classes; ops: accessors+reciprocal+from_qty_vals, "
         "rate*q / q*rate / (rate*q)/rate, q/rate / q*reciprocal / rate*(q/rate); oracle = propagated rounding bound on the "
